@@ -338,3 +338,90 @@ Fixpoint c12_join_lines (ls : list c12_str) : c12_str :=
   | [] => []
   | l :: r => match r with [] => l | _ => l ++ "010" :: c12_join_lines r end
   end.
+
+(* ------------------------------------------------------------------ key lists of a node
+
+   getValueKeys() / getSubKeys() of the node reached by sub(pr) (empty lists if there is no such node) *)
+Fixpoint c12_node (t : c12_tree) (pr : list c12_str) : c12_tree :=
+  match pr with
+  | [] => t
+  | k :: r => match c12_assoc k (c12_subs t) with Some s => c12_node s r | None => c12_empty end
+  end.
+Definition c12_vkeys (t : c12_tree) (pr : list c12_str) : list c12_str := map fst (c12_vals (c12_node t pr)).
+Definition c12_skeys (t : c12_tree) (pr : list c12_str) : list c12_str := map fst (c12_subs (c12_node t pr)).
+
+(* the key an assignment of path p contributes to the value / sub key list of node pr *)
+Definition c12_vcand (pr p : list c12_str) : list c12_str :=
+  match c12_strip_prefix pr p with Some [k] => [k] | _ => [] end.
+Definition c12_scand (pr p : list c12_str) : list c12_str :=
+  match c12_strip_prefix pr p with Some (k :: _ :: _) => [k] | _ => [] end.
+
+(* ------------------------------------------------------------------ readNamedOptions, the documented mapping
+
+   Arguments are read left to right; [used] records which keywords have received a value.
+     -h / --help                      the help request
+     --name=value                     value for parameter name; an error if "=value" is missing, or if
+                                      name is no keyword and further parameters are not allowed
+     anything else (positional)       value for the first keyword that has not received one yet;
+                                      an error ("superfluous") if every keyword has one
+     storing (c12_named_store)        if overwriting is not allowed and the tree already holds a non-empty
+                                      value for the parameter: error ("already specified")
+     at the end                       each of the first [required] keywords must have received a value *)
+Inductive c12_arg_kind := C12ArgHelp | C12ArgNoValue | C12ArgNamed (key value : c12_str) | C12ArgPositional.
+
+Definition c12_arg_kind_of (opt : c12_str) : c12_arg_kind :=
+  if c12_eqs opt ["-"; "h"] || c12_eqs opt ["-"; "-"; "h"; "e"; "l"; "p"] then C12ArgHelp
+  else match c12_dashdash opt with
+       | Some body => match c12_split_at "=" body with
+                      | Some (k, v) => C12ArgNamed k v
+                      | None => C12ArgNoValue
+                      end
+       | None => C12ArgPositional
+       end.
+
+(* index of the first keyword without a value (= number of keywords if there is none) *)
+Fixpoint c12_first_unused (used : list bool) : nat :=
+  match used with
+  | true :: r => S (c12_first_unused r)
+  | _ => O
+  end.
+
+Fixpoint c12_spec_named_loop (args : list c12_str) (pt : c12_tree) (keywords : list c12_str)
+         (used : list bool) (allow_more ow : bool) : c12_tree * c12_status * list bool :=
+  match args with
+  | [] => (pt, C12Ok, used)
+  | opt :: rest =>
+    match c12_arg_kind_of opt with
+    | C12ArgHelp => (pt, C12HelpRequest, used)
+    | C12ArgNoValue => (pt, C12ParserError, used)
+    | C12ArgNamed key value =>
+      match c12_index_of key keywords with
+      | None =>
+        if allow_more then
+          match c12_named_store pt key value ow with
+          | (pt', C12Ok) => c12_spec_named_loop rest pt' keywords used allow_more ow
+          | (pt', st) => (pt', st, used)
+          end
+        else (pt, C12ParserError, used)                          (* unknown parameter *)
+      | Some i =>
+        match c12_named_store pt key value ow with
+        | (pt', C12Ok) => c12_spec_named_loop rest pt' keywords (c12_mark i used) allow_more ow
+        | (pt', st) => (pt', st, used)
+        end
+      end
+    | C12ArgPositional =>
+      let i := c12_first_unused used in
+      if Nat.leb (length used) i then (pt, C12ParserError, used)  (* superfluous unnamed parameter *)
+      else match c12_named_store pt (nth i keywords []) opt ow with
+           | (pt', C12Ok) => c12_spec_named_loop rest pt' keywords (c12_mark i used) allow_more ow
+           | (pt', st) => (pt', st, used)
+           end
+    end
+  end.
+
+Definition c12_spec_read_named (args : list c12_str) (pt : c12_tree) (keywords : list c12_str)
+           (required : nat) (allow_more ow : bool) : c12_tree * c12_status :=
+  match c12_spec_named_loop args pt keywords (repeat false (length keywords)) allow_more ow with
+  | (pt', C12Ok, used) => (pt', if existsb negb (firstn required used) then C12ParserError else C12Ok)
+  | (pt', st, _) => (pt', st)
+  end.
